@@ -19,7 +19,7 @@ SPEC FORMAT  (everything optional is *absent* when not written - never None - so
 spec     := [element, ...]                                       # executed in order
 element  := leaf | parallel                                      # parallel  <=>  "tasks" in element   (see is_parallel)
 leaf     := {
-   "operation": {"name": str, "type": str, "params": {..}, "style": "inline" | "ref" | "string"},
+   "operation": {"name": str, "type": str, "params": {..}, "style": "inline" | "ref" | "string" | "unnamed"},
                                       # style = how the track JSON writes it: inline object / name of an entry of the top-level
                                       # "operations" block / bare string (then name == type and params == {})
    "name": str,                       # optional; default: the operation's name.  Resolved names are unique in a spec.
@@ -85,7 +85,7 @@ ADMIN_OP_TYPES = frozenset({"force-merge", "sleep", "refresh", "cluster-health",
 BUILTIN_OP_TYPES = frozenset({"bulk", "search", "force-merge", "sleep", "raw-request", "refresh", "cluster-health", "put-pipeline",
                               "create-index", "delete-index", "put-settings", "index-stats", "node-stats"})
 TAGS = ("setup", "read-op", "write", "x")
-OP_STYLES = ("inline", "ref", "string")
+OP_STYLES = ("inline", "ref", "string", "unnamed")
 _OP_STEMS = ("index-append", "match-all", "fm", "zz op", "Query_1")
 _TASK_STEMS = ("t", "search #", "index-", "q_", "T")
 _THROUGHPUTS = (1, 5, 100, 1000, 0.5, 12.5, "10 docs/s", "2.5 ops/s", "100 pages/s", "7 MB/s")
@@ -153,14 +153,22 @@ def schedule_specs(
     # ---- operation pool
     pool = []
     string_types = set()
+    unnamed_types = set()
     for i in range(draw(st.integers(1, max_ops))):
         typ = draw(st.sampled_from(op_types))
         style = draw(st.sampled_from(op_styles))
         if style == "string" and typ in string_types:
             style = "inline" if "inline" in op_styles else op_styles[0]
+        if style == "unnamed" and typ in unnamed_types:
+            style = "inline" if "inline" in op_styles else op_styles[0]
         if style == "string":
             string_types.add(typ)
             pool.append({"name": typ, "type": typ, "params": {}, "style": "string"})
+        elif style == "unnamed":
+            # an inline operation *object* without "name": the name defaults to the operation type. It may coexist with a bare
+            # string operation of the same type (same name, no parameters) - the two are different operations
+            unnamed_types.add(typ)
+            pool.append({"name": typ, "type": typ, "params": draw(_op_params(typ)), "style": "unnamed"})
         else:
             pool.append({"name": f"{draw(st.sampled_from(_OP_STEMS))}-{i}{op_suffix}", "type": typ, "params": draw(_op_params(typ)), "style": style})
 
@@ -378,6 +386,8 @@ def model(spec):
 def op_json(op):
     """the operation as an object of the track JSON format"""
     d = {"name": op["name"], "operation-type": op["type"]}
+    if op.get("style") == "unnamed":
+        del d["name"]
     d.update(copy.deepcopy(op["params"]))
     return d
 
@@ -385,7 +395,7 @@ def op_json(op):
 def leaf_json(leaf):
     d = {}
     op = leaf["operation"]
-    if op["style"] == "inline":
+    if op["style"] in ("inline", "unnamed"):
         d["operation"] = op_json(op)
     else:
         d["operation"] = op["name"]
